@@ -1,6 +1,7 @@
 /- "renamed twice in a row": a directory tree of the watched tree renamed to a free name and, before the reader wakes up,
    renamed again to another free name - `rename a b; rename b c` read as one batch (recursive watch) -/
 import WD.Proofs.Pipeline.BurstMoveIn
+import WD.Proofs.Pipeline.AddId
 import WD.Proofs.Pipeline.RenameMove
 set_option linter.unusedSimpArgs false
 namespace WD.Pipe
@@ -154,6 +155,47 @@ theorem burst_rename_chain_state (s : Sys) (a b c : P) (e : Ent) (inv : InvRec s
     exact inv2.remember _ _ (by simp)
   obtain ⟨inv4, _⟩ := inv_after_move inv3 hwf1 ok2' hisd hwb1 hwc1 (mw := mwb) hmwb
   rw [renamed_renamed hwf hbf hbn hcf hne hnu] at inv4
+  -- the follow-up `_add_dir_watch` of the two re-keyings (D23): `b` is gone by the time the batch is read, `c` is covered
+  have hbn0 : b ≠ [] := ne_nil_of_two_le ok1.hq2
+  have hnucb : isUnder c b = false := fresh_not_above hwf hcf (ne_nil_of_two_le ok2.hq2) ok1.hqpar
+  have hFb : (s.fs.renamed a c).find? b = none := find_renamed_none hbf hne hnucb
+  have hFdb : (s.fs.renamed a c).descendants b = [] := by
+    refine desc_renamed_nil hwf hbf hbn0 hnu ?_
+    intro r hr hrn
+    rcases prefix_comparable hr (isUnder_append c hrn) with h | h | h
+    · exact hne h
+    · rw [hnu] at h; cases h
+    · rw [hnucb] at h; cases h
+  have hidB : addTreeWatches (s.fs.renamed a c) { s.k with nextCookie := s.k.nextCookie + 2 }
+      (rekeyLib (s.lib.remember s.k.nextCookie a) a b mwa) b =
+      ({ s.k with nextCookie := s.k.nextCookie + 2 }, rekeyLib (s.lib.remember s.k.nextCookie a) a b mwa) :=
+    addTreeWatches_nothing _ _ _ _ hFb hFdb
+  have hcW : isUnder ["W"] c = true := by
+    have hc0 := ne_nil_of_two_le ok2.hq2
+    have hwc' := hwc
+    unfold watchedDir at hwc'
+    simp only [Bool.and_eq_true, Bool.or_eq_true, beq_iff_eq, Bool.true_and] at hwc'
+    exact isUnder_of_parent hc0 hwc'.2
+  have hwfC : (s.fs.renamed a c).WF := ok2.wf hwf
+  have hfindC : (s.fs.renamed a c).find? c = some (rwEnt a c e) := by
+    have : rwEnt a c e ∈ (s.fs.renamed a c).ents := FS.mem_renamed.mpr ⟨e, hem.1, by rw [hem.2]; exact ok2.hne, rfl⟩
+    have h2 := hwfC.find_mem this
+    simpa [rwEnt, hem.2, rwPath_at] using h2
+  have hidC : addTreeWatches (s.fs.renamed a c) { s.k with nextCookie := s.k.nextCookie + 2 }
+      (rekeyLib ((rekeyLib (s.lib.remember s.k.nextCookie a) a b mwa).remember (s.k.nextCookie + 1) b) b c mwb) c =
+      ({ s.k with nextCookie := s.k.nextCookie + 2 },
+       rekeyLib ((rekeyLib (s.lib.remember s.k.nextCookie a) a b mwa).remember (s.k.nextCookie + 1) b) b c mwb) := by
+    apply addTreeWatches_id inv4 c
+    intro y hy
+    rcases List.mem_append.mp hy with h | h
+    · rw [hfindC] at h; simp at h; subst h
+      refine ⟨(FS.find?_some hfindC).1, ?_, trivial⟩
+      simp [inTreeDir, rwEnt, hem.2, rwPath_at, hd, hcW]
+    · obtain ⟨h1, h2⟩ := List.mem_filter.mp h
+      have hy' := List.mem_filter.mp h1
+      refine ⟨hy'.1, ?_, trivial⟩
+      have hu : isUnder c y.path = true := by simpa using hy'.2
+      simp [inTreeDir, h2, isUnder_trans hcW hu]
   have hl : libBatch (s.fs.renamed a c) { s.k with nextCookie := s.k.nextCookie + 2 } s.lib
       [⟨wdA, .movedFrom, true, s.k.nextCookie, some (baseName a)⟩, ⟨wdB, .movedTo, true, s.k.nextCookie, some (baseName b)⟩,
        ⟨wdB, .movedFrom, true, s.k.nextCookie + 1, some (baseName b)⟩, ⟨wdC, .movedTo, true, s.k.nextCookie + 1, some (baseName c)⟩] =
@@ -163,11 +205,11 @@ theorem burst_rename_chain_state (s : Sys) (a b c : P) (e : Ent) (inv : InvRec s
              ⟨wdB, .movedFrom, true, s.k.nextCookie + 1, some (baseName b), b⟩, ⟨wdC, .movedTo, true, s.k.nextCookie + 1, some (baseName c), c⟩]) := by
     rw [libBatch_cons, libRecord_from _ _ _ _ _ _ _ _ hA1, hpba]
     simp only
-    rw [libBatch_cons, libRecord_to_paired_dir _ _ _ _ _ _ _ _ _ _ hB1 hmwa inv.isRec, hpbb]
+    rw [libBatch_cons, libRecord_to_paired_dir _ _ _ _ _ _ _ _ _ _ hB1 hmwa inv.isRec (fun _ => by rw [hpbb]; exact hidB), hpbb]
     simp only
     rw [libBatch_cons, libRecord_from _ _ _ _ _ _ _ _ hB2, hpbb]
     simp only
-    rw [libBatch_cons, libRecord_to_paired_dir _ _ _ _ _ _ _ _ _ _ hC2 hmwb inv2.isRec, hpbc]
+    rw [libBatch_cons, libRecord_to_paired_dir _ _ _ _ _ _ _ _ _ _ hC2 hmwb inv2.isRec (fun _ => by rw [hpbc]; exact hidC), hpbc]
     simp [libBatch_nil]
   -- grouping and emission
   have hgs : gsOf [(⟨wdA, .movedFrom, true, s.k.nextCookie, some (baseName a), a⟩ : LEv), ⟨wdB, .movedTo, true, s.k.nextCookie, some (baseName b), b⟩,
